@@ -52,6 +52,12 @@ def _worker(job: dict, wall_timeout: float) -> dict:
             r = json.loads(line[len("@@RESULT@@"):])
             r["proc_wall_s"] = round(time.time() - t0, 2)
             return r
+    try:
+        os.makedirs(os.path.join(EVID, "logs"), exist_ok=True)
+        with open(os.path.join(EVID, "logs", "worker_crash_%d.log" % os.getpid()), "a") as f:
+            f.write("JOB %s\nRC %s\nSTDERR\n%s\nSTDOUT\n%s\n" % (json.dumps(job)[:500], p.returncode, p.stderr[-20000:], p.stdout[-5000:]))
+    except Exception:
+        pass
     return {"mode": job["mode"], "verdict": "error", "worker_error": (p.stderr or p.stdout)[-3000:],
             "paths": 0, "reached_end": 0, "solver_queries": 0, "solver_s": 0.0, "cpu_s": 0,
             "witnesses": [], "counterexamples": [], "unknown_paths": 0, "unknown_reasons": {}}
@@ -79,6 +85,9 @@ def run_obligation(pid, module, h, params, tier, seed, budget_scale=1.0):
     job = {"module": module, "harness": h.name, "params": params}
     sym = _worker(dict(job, mode="symbolic", budget=budget, ppt=h.per_path_timeout, seed=seed),
                   wall_timeout=budget * 2 + 120)
+    if sym.get("verdict") == "error":  # crashed worker (solver abort, OOM under load): retry once
+        sym = _worker(dict(job, mode="symbolic", budget=budget, ppt=h.per_path_timeout, seed=seed + 1),
+                      wall_timeout=budget * 2 + 120)
     ob = {"harness": h.name, "params": params, "symbolic": sym, "status": None}
     if sym.get("verdict") == "error":
         ob["status"] = "harness-error"
